@@ -47,10 +47,7 @@ Theorem C34_aggregation_idempotent :
     dkg_aggregate (dkg_aggregate (recv, x)) = dkg_aggregate (recv, x) /\
     dkg_aggregate (recv, x) = dkg_aggregate (recv, y) /\
     (uniq (unzip1 recv) -> (j, s) \in recv -> dkg_recv_add recv j s = recv).
-Proof.
-exact (fun F recv x y j s => conj (dkg_aggregate_idem (recv, x))
-         (conj (dkg_aggregate_forgets recv x y) (@dkg_recv_add_same F recv j s))).
-Qed.
+Proof. exact dkg_aggregation_idempotent. Qed.
 Print Assumptions C34_aggregation_idempotent.
 
 Theorem C34_aggregation_of_honest_shares :
